@@ -824,7 +824,8 @@ struct UdpEngine : Engine
 			"re-bind, send_to with 1-3 buffers of sizes 0..70000 singly or in same-instant bursts of up to 400, send_buffer_size changes, receives in three styles "
 			"(async_receive, async_receive_from, wait_read + non-blocking receive_from) with 1-3 buffers from 1 byte to 70000, draining readers, over routes with latency, "
 			"bandwidth and (35 %) finite tail-dropping queues. Every receive is attributed to one send by its keyed body; at the end all sockets are drained and every "
-			"undelivered datagram must have one of the stated reasons (from probe logs and a shadow account of unread bytes). distinct = distinct shape hash; non-trivial = "
+			"undelivered datagram must have one of the stated reasons (from probe logs and a shadow account of unread bytes). Also: don't-fragment on senders, sockets moved to "
+			"another object, cancel() with datagrams unread, one error_code object for all sends, application timers next to the queues'. distinct = distinct shape hash; non-trivial = "
 			"datagrams were delivered and there was a close, a truncating receive, a tail-drop or a burst";
 	}
 	int64_t budget(std::string const&, int tier) const override { return tier ? 400000 : 15000; }
